@@ -1151,5 +1151,110 @@ func (g *Gen) typeGroundReads(asserts []*Term) []*Term {
 	for _, a := range asserts {
 		rec(a)
 	}
+	extra = append(extra, g.refBoundsOfReads(asserts)...)
 	return append(asserts, extra...)
+}
+
+// refBoundsOfReads: a reference read from a heap version is no younger than that
+// version (every cell of a version holds nil or an object allocated before the
+// version was written). For reads through store chains the bound is stated for
+// every layer, so that an untouched cell keeps the bound of the old version.
+func (g *Gen) refBoundsOfReads(asserts []*Term) []*Term {
+	seen := map[*Term]bool{}
+	done := map[[3]*Term]bool{}
+	bmemo := map[*Term]bool{}
+	var out []*Term
+	compOf := func(n string) string {
+		for _, pre := range []string{"O:", "M:", "E:"} {
+			if i := strings.Index(n, pre); i >= 0 {
+				c := n[i:]
+				if j := strings.LastIndex(c, "@"); j > 0 {
+					c = c[:j]
+				}
+				if j := strings.LastIndex(c, "!"); j > 0 {
+					if _, err := fmt.Sscanf(c[j+1:], "%d", new(int)); err == nil {
+						c = c[:j]
+					}
+				}
+				return c
+			}
+		}
+		return ""
+	}
+	var layers func(a *Term, depth int) []*Term
+	layers = func(a *Term, depth int) []*Term {
+		if depth > 6 {
+			return nil
+		}
+		switch a.Op {
+		case "store":
+			return append([]*Term{a}, layers(a.Args[0], depth+1)...)
+		case "ite":
+			return append(layers(a.Args[1], depth+1), layers(a.Args[2], depth+1)...)
+		case "const":
+			return []*Term{a}
+		}
+		return nil
+	}
+	baseName := func(a *Term) string {
+		for a != nil {
+			switch a.Op {
+			case "store":
+				a = a.Args[0]
+			case "ite":
+				a = a.Args[1]
+			case "const":
+				return a.Name
+			default:
+				return ""
+			}
+		}
+		return ""
+	}
+	var rec func(t *Term)
+	rec = func(t *Term) {
+		if seen[t] {
+			return
+		}
+		seen[t] = true
+		for _, a := range t.Args {
+			rec(a)
+		}
+		if t.Op != "select" || t.S != SInt || containsBound(t, bmemo) {
+			return
+		}
+		// one-level (O:) read: select(A, r); two-level (M:val, E:) read: select(select(A, m), k)
+		var arr, i1, i2 *Term
+		if t.Args[0].Op == "select" && t.Args[0].Args[0].S.K == KArray {
+			arr, i1, i2 = t.Args[0].Args[0], t.Args[0].Args[1], t.Args[1]
+		} else {
+			arr, i1 = t.Args[0], t.Args[1]
+		}
+		c := compOf(baseName(arr))
+		if c == "" || !g.refComps[c] {
+			return
+		}
+		for _, v := range layers(arr, 0) {
+			clk, ok := g.heapClk[v]
+			if !ok {
+				continue
+			}
+			k := [3]*Term{v, i1, i2}
+			if done[k] {
+				continue
+			}
+			done[k] = true
+			var cell *Term
+			if i2 != nil {
+				cell = Select(Select(v, i1), i2)
+			} else {
+				cell = Select(v, i1)
+			}
+			out = append(out, And(Le(IntLit(0), cell), Le(cell, clk)))
+		}
+	}
+	for _, a := range asserts {
+		rec(a)
+	}
+	return out
 }
